@@ -12,7 +12,15 @@ package main
 //   3  end-to-end, oracle only (overlapping rule sets / unclean rewrite results)
 //   4  concurrent AddTarget/RemoveTarget/Next from several goroutines, oracle only
 //   5  end-to-end like kind 1, but echo runs behind a real http.Server (httptest.NewServer(e)) and is
-//      called over TCP: the request body is net/http's server body (known finding F16)
+//      called over TCP: the request body is net/http's server body (known finding F16); websocket
+//      upgrades over a raw TCP connection (the upstream answers 101 and exchanges bytes through the
+//      tunnel); absolute-form request targets sent by a client that uses echo as its proxy
+//
+// Kinds 1, 3, 5 vary the whole configuration (round 4): Proxy(balancer) vs ProxyWithConfig, a balancer
+// that is a TargetProvider (with scripted errors), custom RetryFilter (scripted by call / by error
+// code), custom ErrorHandler (maps / swallows), custom Skipper, ContextKey, rules handed over partly
+// as RegexRewrite, Transport (plain *http.Transport / logging RoundTripper), a second echo instance
+// sharing the balancer, request targets in absolute form (also upper-case scheme, userinfo).
 
 import (
 	"fmt"
@@ -50,8 +58,21 @@ type c19Resp struct {
 }
 
 type c19Req struct {
-	Method   string      `json:"method"`
-	URI      string      `json:"uri"`
+	Method string `json:"method"`
+	URI    string `json:"uri"`
+	// request target in absolute form (`GET http://host/path HTTP/1.1`) when Host != ""
+	Scheme string `json:"scheme,omitempty"`
+	Host   string `json:"host,omitempty"`
+	// websocket upgrade: Body = bytes the client sends after the 101, Resp.Body = bytes the upstream
+	// sends back before it closes the tunnel
+	WS bool `json:"ws,omitempty"`
+	// carries the header the configured Skipper looks for
+	Skip bool `json:"skip,omitempty"`
+	// TargetProvider script, by NextTarget call of this request: 0 = a target, -1 = a plain error,
+	// n > 0 = *echo.HTTPError with code n
+	ProvErr []int `json:"prov_err,omitempty"`
+	// 1: the request goes to the second echo instance (c19Case.TwoInst)
+	Inst     int         `json:"inst,omitempty"`
 	Headers  [][2]string `json:"headers,omitempty"`
 	Body     []byte      `json:"body,omitempty"`
 	Canceled bool        `json:"canceled,omitempty"`
@@ -62,6 +83,15 @@ type c19Req struct {
 	// shrinker drop rules no request depends on
 	Rule int     `json:"rule,omitempty"`
 	Resp c19Resp `json:"resp"`
+}
+
+// custom RetryFilter: kind 1 answers by call number (Answers, then Rest), kind 2 answers true
+// for *echo.HTTPError with one of Codes
+type c19Filter struct {
+	Kind    int    `json:"kind"`
+	Answers []bool `json:"answers,omitempty"`
+	Rest    bool   `json:"rest,omitempty"`
+	Codes   []int  `json:"codes,omitempty"`
 }
 
 type c19Step struct {
@@ -85,6 +115,19 @@ type c19Case struct {
 	Rules []c19Rule   `json:"rules,omitempty"`
 	Steps []c19Step   `json:"steps,omitempty"`
 	Conc  *c19Conc    `json:"conc,omitempty"`
+	// configuration surface (kinds 1, 3, 5)
+	Ctor     int        `json:"ctor,omitempty"`      // 1 = middleware.Proxy(balancer): every field below and Retry/Rules are not in force
+	Provider bool       `json:"provider,omitempty"`  // the balancer implements TargetProvider
+	Filter   *c19Filter `json:"filter,omitempty"`    // nil = default RetryFilter
+	Handler  int        `json:"handler,omitempty"`   // ErrorHandler: 0 nil, n > 0 answers HTTPError(n), -1 writes its own 203 and returns nil
+	Skipper  bool       `json:"skipper,omitempty"`   // custom Skipper (skips requests carrying X-C19-Skip)
+	CtxKey   string     `json:"ctx_key,omitempty"`   // ProxyConfig.ContextKey
+	RegexCfg bool       `json:"regex_cfg,omitempty"` // rules are installed through ProxyConfig.RegexRewrite (compiled by the harness) instead of Rewrite
+	// ProxyConfig.Transport: 0 nil, 1 a plain *http.Transport, 2 a RoundTripper that logs every round trip
+	Transport int `json:"transport,omitempty"`
+	// a second echo instance with its own middleware made from the same configuration and the SAME
+	// balancer; requests with Inst = 1 go there
+	TwoInst bool `json:"two_inst,omitempty"`
 }
 
 func c19NewBalancer(rr bool, ts []*middleware.ProxyTarget) middleware.ProxyBalancer {
@@ -324,9 +367,9 @@ func c19Run(ci any) Result {
 }
 
 func c19Gen(r *rand.Rand, tier string) []any {
-	nOps, nE2E, nWeird, nConc, nReal := 4000, 700, 60, 20, 40
+	nOps, nE2E, nWeird, nConc, nReal := 4000, 900, 60, 20, 120
 	if tier == "thorough" {
-		nOps, nE2E, nWeird, nConc, nReal = 150000, 25000, 2000, 600, 1500
+		nOps, nE2E, nWeird, nConc, nReal = 150000, 30000, 2000, 600, 4000
 	}
 	var out []any
 	for i := 0; i < nOps; i++ {
@@ -438,7 +481,8 @@ func init() {
 	register(&Prop{
 		ID: "C19",
 		Rule: "kind 0: random AddTarget/RemoveTarget/Next op sequences (≤40 ops quick, ≤120 thorough; 0-5(8) initial targets; names from a small pool incl. empty, case and space look-alikes, rare duplicate initial names; Next with a fresh context = first-time pick, with a used context = retry) on NewRoundRobinBalancer (3/4) and NewRandomBalancer (1/4); " +
-			"kind 1: end-to-end scenarios through e.ServeHTTP + ProxyWithConfig with 0-4 targets over 4 instrumented upstream servers / refused loopback ports, RetryCount -1..3, 0-3 non-overlapping glob rewrite rules, 1-10 steps (requests with methods, encoded paths, queries, header sets, bodies, cancelled client contexts; AddTarget/RemoveTarget between requests); kind 3: same, oracle only (overlapping rules, unclean rewrite results); kind 4: concurrent op scripts (2-6 goroutines, unique names, call intervals on a logical clock); kind 5: kind-1 scenarios with echo behind a real http.Server (request bodies are net/http server bodies; aimed at retry-with-body, F16); " +
+			"kind 1: end-to-end scenarios through e.ServeHTTP + ProxyWithConfig with 0-4 targets over 4 instrumented upstream servers / refused loopback ports, RetryCount -1..3, 0-3 non-overlapping glob rewrite rules, 1-10 steps (requests with methods, encoded paths, queries, header sets, bodies, cancelled client contexts; AddTarget/RemoveTarget between requests); kind 3: same, oracle only (overlapping rules, unclean rewrite results); kind 4: concurrent op scripts (2-6 goroutines, unique names, call intervals on a logical clock); kind 5: kind-1 scenarios with echo behind a real http.Server (request bodies are net/http server bodies; aimed at retry-with-body, F16; 1/5 of the requests are websocket upgrades over a raw TCP connection with payload in both directions; absolute-form targets through a proxy-style client); " +
+			"kinds 1/3/5 draw the configuration: Proxy(balancer) (1/8) or ProxyWithConfig with custom RetryFilter (scripted answers by call, or by HTTPError code), ErrorHandler (maps to 503/418/502 or writes its own answer), Skipper (header based), ContextKey, TargetProvider balancer with scripted errors (HTTPError 503/502/429 or a plain error at NextTarget call 0-2), half of the rules via RegexRewrite, Transport (nil / *http.Transport / logging RoundTripper), a second echo instance sharing the balancer; per request 1/6 absolute-form request target (http/https, host, host:port, IPv6, 1/4 of these with upper-case scheme or userinfo), websocket upgrade through e.ServeHTTP (not hijackable), extension method PROPFIND; " +
 			"non-trivial = (kind 0) a sequence with a successful removal, a retry pick and a wrap-around of the round-robin index, or (kind 1) a scenario in which a request was retried onto another target or a rewrite rule fired; distinct = distinct model op lines",
 		New:            func() any { return &c19Case{} },
 		Gen:            c19Gen,
@@ -446,6 +490,6 @@ func init() {
 		Shrink:         c19Shrink,
 		Known:          c19Known,
 		Serial:         true,
-		Correspondence: "C19.runOps / C19.runSteps (lean/EchoModel/C19.lean: addTarget, removeTarget, nextRR, nextRandom, proxyLoop, rewrite) vs middleware.NewRoundRobinBalancer/NewRandomBalancer + ProxyWithConfig + rewriteURL",
+		Correspondence: "C19.runOps / C19.runSteps (lean/EchoModel/C19.lean: addTarget, removeTarget, nextRR, nextRandom, loopG [= proxyLoop for the default configuration], Scenario.eff, rewriteReq/matchInput) vs middleware.NewRoundRobinBalancer/NewRandomBalancer + Proxy/ProxyWithConfig + proxyRaw + rewriteURL",
 	})
 }
